@@ -1,4 +1,5 @@
 import MaestroVerif.Lemmas.ExecDemo
+import MaestroVerif.Gen.ExecTables
 
 /-!
 # C20 — Scheduler query faults never corrupt step states
@@ -45,5 +46,24 @@ theorem C20_others_stay_tracked (cfg : Cfg) (g : G) (i : Nat) (st : Option State
 /-! non-vacuity: the demo history contains a `None` report and a NOJOBS poll -/
 example : (run demoCfg (demoOps.take 4)).inProgress = [2, 3] ∧
     (run demoCfg (demoOps.take 3)).inProgress = [2, 3] := by decide +kernel
+
+
+/-! ## tie to the source: the branch tables regenerated from `execute_ready_steps` -/
+
+/-- **The answers the model ignores are exactly the answers the code has no
+branch for**: `Gen.handledStates` is re-extracted from the `status == State.X`
+chain of `execute_ready_steps` on every run; a new branch in the code (say for
+PENDING) breaks this theorem. -/
+theorem C20_ignored_iff_unhandled : ∀ s ∈ State.all, (passive s = true ↔ s ∉ handledStates) := by
+  decide
+
+/-- every handled answer changes something in a suitable state (no dead branch
+in the table): the terminal ones and RUNNING -/
+theorem C20_handled_are_active : ∀ s ∈ handledStates, terminal (some s) = true ∨ s = .RUNNING := by
+  decide
+
+/-- the query codes the code distinguishes are ERROR (abort) and OK (apply the
+answers); every other code (NOJOBS) applies no answer — as in the model's `poll` -/
+theorem C20_codes_distinguished : distinguishedCodes = [.ERROR, .OK] := by decide
 
 end MaestroVerif.C20
